@@ -94,6 +94,10 @@ def rangeS (pm : List Param) : Stmt → Frame → Bool
   | .prim _, _ => true
   | .loadCell r c, s => exR pm s [] r && exR pm s [] c
   | .tabsNew, _ => true
+  | .allocAlt _, _ => false       -- not analysed
+  | .allocPrimary _, _ => false
+  | .fillRows _, _ => false
+  | .clampSaved _ _, _ => false
   | .tabsAppendTab, _ => true
   | .tabsStore, _ => true
   | .tabsClear, _ => true
